@@ -129,7 +129,7 @@ def signature(exe, cfg, lg, path, env, hang):
 
 
 def run(ctx):
-    ctx.level = "exploration"
+    ctx.level = "proof"
     ctx.cov["rule"] = ("one case = one run of the real binary on a mutated corpus input (line/byte truncation, deleted/duplicated line, bracket "
                        "deletion/insertion, unterminated comment/string/region/continuation, byte flip, token deletion/swap, random bytes) or a "
                        "generated program, in its own language, with its test config, under a %d s timeout; thorough tier runs the ASan+UBSan build; "
